@@ -193,6 +193,9 @@ func (*G1) FromAffineX(x *BaseFieldElementG1, b bool) (*PointG1, error) {
 	if ok != 1 {
 		return nil, curves.ErrInvalidCoordinates.WithMessage("x")
 	}
+	if !p.IsTorsionFree() {
+		return nil, curves.ErrSubGroupMembership.WithStackFrame()
+	}
 	y, err := p.AffineY()
 	if err != nil {
 		panic(err) // should never happen
